@@ -1,5 +1,530 @@
 import SemVerif.Spec.Preds
 import SemVerif.Inventory
-/-! # Property C10 — theorems (under construction) -/
+import SemVerif.Lemmas.StmtSteps
+import SemVerif.Lemmas.Frames
+/-!
+# Property C10 — labels are set once (every program)
+
+`C10_unique`: for every program and every function, no label is set twice in the function's stack.
+Invariant `LInv`: the labels set in the root stack are pairwise distinct and registered.  Frame
+property `Ext`: the registry only grows, and a registered label that is not yet set stays unset
+unless the construct allocated it itself (`Pending`).  A label is set only by the construct that
+obtained it from the probe, which returns a name outside the function-wide registry
+(`St.probeLabel_fresh`).  Mutual structural induction over the control constructs; everything
+below statement level is an expression-level step chain and touches neither registry nor labels.
+
+The resolution half of C10 (every jump target is set, for accepted well-formed programs without
+finding F3) is checked by the correspondence run only; see DESIGN.md.
+-/
 namespace SemVerif
+
+theorem setLabels_append (a b : List Instr) : setLabels (a ++ b) = setLabels a ++ setLabels b := by
+  simp [setLabels, List.filterMap_append]
+
+theorem setLabels_snoc_plain (c : List Instr) (i : Instr) (h : i.setsLabel = none) :
+    setLabels (c ++ [i]) = setLabels c := by
+  rw [setLabels_append]; simp [setLabels, List.filterMap, h]
+
+theorem setLabels_snoc_label (c : List Instr) (l : Name) :
+    setLabels (c ++ [.setLabel l]) = setLabels c ++ [l] := by
+  rw [setLabels_append]; simp [setLabels, List.filterMap, Instr.setsLabel]
+
+/-- labels set in the root stack are pairwise distinct and registered -/
+def LInv (s : St) : Prop :=
+  (setLabels s.root.context).Nodup ∧ ∀ l ∈ setLabels s.root.context, l ∈ s.root.labels
+
+/-- `s'` extends `s`: the registry grows; registered-but-unset labels of `s` are still unset -/
+def LExt (s s' : St) : Prop :=
+  (∀ l ∈ s.root.labels, l ∈ s'.root.labels) ∧
+  (∀ l ∈ s.root.labels, l ∉ setLabels s.root.context → l ∉ setLabels s'.root.context)
+
+def Good (s s' : St) : Prop := LInv s → LInv s' ∧ LExt s s'
+
+theorem LExt.refl (s : St) : LExt s s := ⟨fun _ h => h, fun _ _ h => h⟩
+theorem LExt.trans {a b c : St} (h1 : LExt a b) (h2 : LExt b c) : LExt a c :=
+  ⟨fun l h => h2.1 l (h1.1 l h), fun l h hn => h2.2 l (h1.1 l h) (h1.2 l h hn)⟩
+theorem Good.refl (s : St) : Good s s := fun h => ⟨h, LExt.refl s⟩
+theorem Good.trans {a b c : St} (h1 : Good a b) (h2 : Good b c) : Good a c := fun h =>
+  let ⟨i1, e1⟩ := h1 h
+  let ⟨i2, e2⟩ := h2 i1
+  ⟨i2, e1.trans e2⟩
+
+/-- operations that leave the root's registry and its label-setting instructions alone -/
+theorem good_of_same {s s' : St} (hl : s'.root.labels = s.root.labels)
+    (hc : setLabels s'.root.context = setLabels s.root.context) : Good s s' := by
+  intro ⟨h1, h2⟩
+  refine ⟨⟨by rw [hc]; exact h1, by rw [hc, hl]; exact h2⟩, ⟨by rw [hl]; exact fun _ h => h, ?_⟩⟩
+  rw [hc]; exact fun _ _ h => h
+
+theorem root_push (i : Instr) (s : St) :
+    (s.push i).root.context = s.root.context ++ [i] ∧ (s.push i).root.labels = s.root.labels := ⟨rfl, rfl⟩
+
+theorem root_pushVia (k : Nat) (i : Instr) (s : St) :
+    (s.pushVia k i).root.context = s.root.context ++ [i] ∧ (s.pushVia k i).root.labels = s.root.labels := by
+  unfold St.pushVia St.push St.mapFrames St.mapCur
+  cases s.inner <;> exact ⟨rfl, rfl⟩
+
+theorem good_push_plain (s : St) (i : Instr) (h : i.setsLabel = none) : Good s (s.push i) :=
+  good_of_same rfl (by rw [(root_push i s).1, setLabels_snoc_plain _ _ h])
+
+theorem good_pushVia_plain (s : St) (k : Nat) (i : Instr) (h : i.setsLabel = none) : Good s (s.pushVia k i) :=
+  good_of_same (root_pushVia k i s).2 (by rw [(root_pushVia k i s).1, setLabels_snoc_plain _ _ h])
+
+theorem good_enter (s : St) : Good s s.enter := good_of_same rfl rfl
+theorem good_setReturn (s : St) : Good s s.setReturn := good_of_same rfl rfl
+theorem good_leave (s : St) : Good s s.leave.2 :=
+  good_of_same (root_leave_fields s).2.2.2.1 (by rw [(root_leave_fields s).1])
+
+theorem good_estep {s s' : St} (st : EStep s s') : Good s s' := by
+  cases st with
+  | incReg => exact good_of_same rfl rfl
+  | emit i _ _ hl _ => exact good_push_plain s i hl
+  | incEmit i _ _ hl _ => exact (good_of_same (s := s) (s' := s.incReg) rfl rfl).trans (good_push_plain _ i hl)
+  | addErr k v l o => exact good_of_same rfl rfl
+  | declare n v i _ _ hl _ _ =>
+    refine Good.trans (good_of_same ?_ ?_) (good_push_plain _ i hl)
+    · unfold St.registerInner St.mapFrames St.insertValue St.mapCur; cases s.inner <;> rfl
+    · unfold St.registerInner St.mapFrames St.insertValue St.mapCur; cases s.inner <;> rfl
+
+theorem good_esteps {s s' : St} (st : ESteps s s') : Good s s' := by
+  induction st with
+  | refl => exact Good.refl _
+  | tail _ st ih => exact ih.trans (good_estep st)
+
+/-- what a label probe does to the root block -/
+theorem fresh_spec (s : St) (stem : Name) :
+    (s.probeLabel stem).1 ∉ s.root.labels ∧
+    (∀ x, x ∈ (s.probeLabel stem).2.root.labels ↔ x = (s.probeLabel stem).1 ∨ x ∈ s.root.labels) ∧
+    (s.probeLabel stem).2.root.context = s.root.context := by
+  have hf := St.probeLabel_fresh s stem
+  refine ⟨?_, ?_, rfl⟩
+  · intro hm
+    unfold St.labelUsed at hf
+    have : (s.frames.any fun b => b.labels.contains (s.probeLabel stem).1) = true := by
+      rw [List.any_eq_true]
+      exact ⟨s.root, by simp [St.frames], by simpa using hm⟩
+    rw [this] at hf; cases hf
+  · intro x
+    show x ∈ setInsert _ s.root.labels ↔ _
+    exact mem_setInsert _ _ _
+
+theorem good_fresh (s : St) (stem : Name) : Good s (s.probeLabel stem).2 := by
+  intro ⟨h1, h2⟩
+  obtain ⟨_, hl, hc⟩ := fresh_spec s stem
+  refine ⟨⟨by rw [hc]; exact h1, ?_⟩, ⟨?_, ?_⟩⟩
+  · intro l hl'; rw [hc] at hl'; exact (hl l).mpr (Or.inr (h2 l hl'))
+  · intro l h; exact (hl l).mpr (Or.inr h)
+  · intro l _ hn; rw [hc]; exact hn
+
+/-- setting a registered, still unset label keeps the invariant -/
+theorem inv_setLabel (s s' : St) (l : Name) (hi : LInv s) (hr : l ∈ s.root.labels)
+    (hn : l ∉ setLabels s.root.context)
+    (hroot : s'.root.context = s.root.context ++ [.setLabel l] ∧ s'.root.labels = s.root.labels) :
+    LInv s' ∧ setLabels s'.root.context = setLabels s.root.context ++ [l] := by
+  obtain ⟨h1, h2⟩ := hi
+  have hc : setLabels s'.root.context = setLabels s.root.context ++ [l] := by
+    rw [hroot.1, setLabels_snoc_label]
+  refine ⟨⟨?_, ?_⟩, hc⟩
+  · rw [hc]
+    exact List.nodup_append.mpr ⟨h1, by simp, by intro a ha b hb; simp at hb; subst hb; intro h; subst h; exact hn ha⟩
+  · intro l' hl'; rw [hc] at hl'; rw [hroot.2]
+    rcases List.mem_append.mp hl' with h | h
+    · exact h2 l' h
+    · simp at h; subst h; exact hr
+
+/-- result of a construct relative to its start state -/
+def Res (s0 s : St) : Prop := LInv s ∧ LExt s0 s
+
+theorem Res.step {s0 s s' : St} (h : Res s0 s) (g : Good s s') : Res s0 s' :=
+  let ⟨i, e⟩ := g h.1
+  ⟨i, h.2.trans e⟩
+
+/-- a label allocated after `s0`, registered and not yet set -/
+def Pending (s0 s : St) (l : Name) : Prop :=
+  l ∈ s.root.labels ∧ l ∉ setLabels s.root.context ∧ l ∉ s0.root.labels
+
+theorem Pending.step {s0 s s' : St} {l : Name} (h : Pending s0 s l) (hi : LInv s) (g : Good s s') :
+    Pending s0 s' l :=
+  let ⟨_, e⟩ := g hi
+  ⟨e.1 l h.1, e.2 l h.1 h.2.1, h.2.2⟩
+
+/-- push `SetLabel l'` (directly or through the suspended block): another pending label stays pending -/
+theorem Pending.setOther {s0 s s' : St} {l l' : Name} (h : Pending s0 s l) (hne : l ≠ l')
+    (hroot : s'.root.context = s.root.context ++ [.setLabel l'] ∧ s'.root.labels = s.root.labels) :
+    Pending s0 s' l := by
+  refine ⟨hroot.2 ▸ h.1, ?_, h.2.2⟩
+  rw [hroot.1, setLabels_snoc_label]; intro hm
+  rcases List.mem_append.mp hm with hm | hm
+  · exact h.2.1 hm
+  · simp at hm; exact hne hm
+
+theorem Res.setPending {s0 s s' : St} {l : Name} (h : Res s0 s) (p : Pending s0 s l)
+    (hroot : s'.root.context = s.root.context ++ [.setLabel l] ∧ s'.root.labels = s.root.labels) :
+    Res s0 s' := by
+  obtain ⟨i', hc⟩ := inv_setLabel s s' l h.1 p.1 p.2.1 hroot
+  refine ⟨i', ⟨fun x hx => by rw [hroot.2]; exact h.2.1 x hx, ?_⟩⟩
+  intro x hx hxn
+  rw [hc]
+  intro hmem
+  rcases List.mem_append.mp hmem with hm | hm
+  · exact h.2.2 x hx hxn hm
+  · simp at hm; subst hm; exact p.2.2 hx
+
+theorem ifPrologue_spec (g : Globals) (cond : IfCond) (dup isElse : Bool) (le : Option Name) (s : St) (hi : LInv s) :
+    let p := ifPrologue g cond dup isElse le s
+    Res s p.2.2 ∧ Pending s p.2.2 p.1 ∧ (le = none → Pending s p.2.2 p.2.1 ∧ p.2.1 ≠ p.1) ∧ (∀ l, le = some l → p.2.1 = l) := by
+  unfold ifPrologue
+  dsimp only
+  have g0 : Good s (if dup then s.addErr .ifElseDuplicated "if-condition".toList 1 0 else s) := by
+    cases dup
+    · exact Good.refl _
+    · exact good_of_same rfl rfl
+  have hroot0 : (if dup then s.addErr .ifElseDuplicated "if-condition".toList 1 0 else s).root = s.root := by
+    cases dup <;> rfl
+  generalize (if dup then s.addErr .ifElseDuplicated "if-condition".toList 1 0 else s) = s0 at g0 hroot0
+  have h0 : Res s s0.enter := (Res.step ⟨hi, LExt.refl s⟩ g0).step (good_enter s0)
+  have eroot : s0.enter.root = s.root := hroot0
+  obtain ⟨f1n, f1l, f1c⟩ := fresh_spec s0.enter "if_begin".toList
+  have h1 : Res s (s0.enter.probeLabel "if_begin".toList).2 := h0.step (good_fresh _ _)
+  generalize s0.enter.probeLabel "if_begin".toList = r1 at f1n f1l f1c h1
+  obtain ⟨lb, s1⟩ := r1
+  dsimp only at f1n f1l f1c h1 ⊢
+  rw [eroot] at f1n f1l f1c
+  obtain ⟨f2n, f2l, f2c⟩ := fresh_spec s1 "if_else".toList
+  have h2 : Res s (s1.probeLabel "if_else".toList).2 := h1.step (good_fresh _ _)
+  generalize s1.probeLabel "if_else".toList = r2 at f2n f2l f2c h2
+  obtain ⟨le2, s2⟩ := r2
+  dsimp only at f2n f2l f2c h2 ⊢
+  have b_reg : lb ∈ s2.root.labels := (f2l lb).mpr (Or.inr ((f1l lb).mpr (Or.inl rfl)))
+  have b_new : lb ∉ s.root.labels := f1n
+  have e_reg : le2 ∈ s2.root.labels := (f2l le2).mpr (Or.inl rfl)
+  have e_new : le2 ∉ s.root.labels := by intro h; exact f2n ((f1l le2).mpr (Or.inr h))
+  have e_ne_b : le2 ≠ lb := by intro h; exact f2n ((f1l le2).mpr (Or.inl h))
+  have ctx2 : s2.root.context = s.root.context := by rw [f2c, f1c]
+  have unset_of_new : ∀ l, l ∉ s.root.labels → l ∉ setLabels s.root.context := fun l hn hm => hn (hi.2 l hm)
+  cases le with
+  | some l =>
+    dsimp only
+    have gc := good_esteps (esteps_ifCondCalc g cond lb le2 l isElse s2)
+    have h3 := h2.step gc
+    have pb : Pending s s2 lb := ⟨b_reg, by rw [ctx2]; exact unset_of_new _ b_new, b_new⟩
+    have pe : Pending s s2 le2 := ⟨e_reg, by rw [ctx2]; exact unset_of_new _ e_new, e_new⟩
+    have pb' := pb.step h2.1 gc
+    have pe' := pe.step h2.1 gc
+    exact ⟨h3.setPending pb' (root_push _ _), pe'.setOther e_ne_b (root_push _ _), (by intro h; cases h),
+      (by intro l' hl'; cases hl'; rfl)⟩
+  | none =>
+    dsimp only
+    obtain ⟨f3n, f3l, f3c⟩ := fresh_spec s2 "if_end".toList
+    have h2' : Res s (s2.probeLabel "if_end".toList).2 := h2.step (good_fresh _ _)
+    generalize s2.probeLabel "if_end".toList = r3 at f3n f3l f3c h2'
+    obtain ⟨ln, s3⟩ := r3
+    dsimp only at f3n f3l f3c h2' ⊢
+    have d_reg : ln ∈ s3.root.labels := (f3l ln).mpr (Or.inl rfl)
+    have d_new : ln ∉ s.root.labels := by
+      intro h; exact f3n ((f2l ln).mpr (Or.inr ((f1l ln).mpr (Or.inr h))))
+    have d_ne_b : ln ≠ lb := by intro h; exact f3n ((f2l ln).mpr (Or.inr ((f1l ln).mpr (Or.inl h))))
+    have d_ne_e : ln ≠ le2 := by intro h; exact f3n ((f2l ln).mpr (Or.inl h))
+    have ctx3 : s3.root.context = s.root.context := by rw [f3c, ctx2]
+    have gc := good_esteps (esteps_ifCondCalc g cond lb le2 ln isElse s3)
+    have h3 := h2'.step gc
+    have mk : ∀ l, l ∈ s3.root.labels → l ∉ s.root.labels → Pending s s3 l := fun l hr hn =>
+      ⟨hr, by rw [ctx3]; exact unset_of_new _ hn, hn⟩
+    have pb := (mk lb ((f3l lb).mpr (Or.inr b_reg)) b_new).step h2'.1 gc
+    have pe := (mk le2 ((f3l le2).mpr (Or.inr e_reg)) e_new).step h2'.1 gc
+    have pd := (mk ln d_reg d_new).step h2'.1 gc
+    exact ⟨h3.setPending pb (root_push _ _), pe.setOther e_ne_b (root_push _ _),
+      fun _ => ⟨pd.setOther d_ne_b (root_push _ _), d_ne_e⟩, (by intro l' hl'; cases hl')⟩
+
+theorem loopPrologue_spec (s : St) (hi : LInv s) :
+    let p := loopPrologue s
+    Res s p.2.2 ∧ Pending s p.2.2 p.2.1 := by
+  unfold loopPrologue
+  dsimp only
+  have h0 : Res s s.enter := Res.step ⟨hi, LExt.refl s⟩ (good_enter s)
+  have eroot : s.enter.root = s.root := rfl
+  obtain ⟨f1n, f1l, f1c⟩ := fresh_spec s.enter "loop_begin".toList
+  have h1 : Res s (s.enter.probeLabel "loop_begin".toList).2 := h0.step (good_fresh _ _)
+  generalize s.enter.probeLabel "loop_begin".toList = r1 at f1n f1l f1c h1
+  obtain ⟨lb, s1⟩ := r1
+  dsimp only at f1n f1l f1c h1 ⊢
+  rw [eroot] at f1n f1l f1c
+  obtain ⟨f2n, f2l, f2c⟩ := fresh_spec s1 "loop_end".toList
+  have h2 : Res s (s1.probeLabel "loop_end".toList).2 := h1.step (good_fresh _ _)
+  generalize s1.probeLabel "loop_end".toList = r2 at f2n f2l f2c h2
+  obtain ⟨le, s2⟩ := r2
+  dsimp only at f2n f2l f2c h2 ⊢
+  have b_new : lb ∉ s.root.labels := f1n
+  have e_new : le ∉ s.root.labels := by intro h; exact f2n ((f1l le).mpr (Or.inr h))
+  have e_ne_b : le ≠ lb := by intro h; exact f2n ((f1l le).mpr (Or.inl h))
+  have ctx2 : s2.root.context = s.root.context := by rw [f2c, f1c]
+  have unset_of_new : ∀ l, l ∉ s.root.labels → l ∉ setLabels s.root.context := fun l hn hm => hn (hi.2 l hm)
+  have g1 : Good s2 (s2.push (.jumpTo lb)) := good_push_plain _ _ rfl
+  have h3 := h2.step g1
+  have pb : Pending s s2 lb := ⟨(f2l lb).mpr (Or.inr ((f1l lb).mpr (Or.inl rfl))), by rw [ctx2]; exact unset_of_new _ b_new, b_new⟩
+  have pe : Pending s s2 le := ⟨(f2l le).mpr (Or.inl rfl), by rw [ctx2]; exact unset_of_new _ e_new, e_new⟩
+  exact ⟨h3.setPending (pb.step h2.1 g1) (root_push _ _), (pe.step h2.1 g1).setOther e_ne_b (root_push _ _)⟩
+
+theorem ifAfterBody_spec {s0 : St} (isElse r : Bool) (lElse lEnd : Name) (s : St)
+    (h : Res s0 s) (pe : Pending s0 s lElse) :
+    Res s0 (ifAfterBody isElse r lElse lEnd s).2 ∧
+    ∀ l, Pending s0 s l → l ≠ lElse → Pending s0 (ifAfterBody isElse r lElse lEnd s).2 l := by
+  unfold ifAfterBody
+  dsimp only
+  have g1 : Good s (if r then s else s.push (.jumpTo lEnd)) := by
+    cases r
+    · exact good_push_plain _ _ rfl
+    · exact Good.refl _
+  have h1 := h.step g1
+  have pe1 := pe.step h.1 g1
+  have hp1 : ∀ l, Pending s0 s l → Pending s0 (if r then s else s.push (.jumpTo lEnd)) l := fun l pl => pl.step h.1 g1
+  generalize (if r then s else s.push (.jumpTo lEnd)) = s1 at h1 pe1 hp1
+  cases isElse with
+  | false =>
+    simp only [Bool.false_eq_true, if_false]
+    exact ⟨h1.step (good_leave s1), fun l pl _ => (hp1 l pl).step h1.1 (good_leave s1)⟩
+  | true =>
+    simp only [if_true]
+    have h2 := h1.setPending pe1 (root_push (.setLabel lElse) s1)
+    exact ⟨h2.step (good_leave _), fun l pl hne =>
+      ((hp1 l pl).setOther hne (root_push (.setLabel lElse) s1)).step h2.1 (good_leave _)⟩
+
+theorem ifAfterElse_spec {s0 : St} (k : Nat) (r : Bool) (lEnd : Name) (s : St) (h : Res s0 s) :
+    Res s0 (ifAfterElse k r lEnd s) ∧ ∀ l, Pending s0 s l → Pending s0 (ifAfterElse k r lEnd s) l := by
+  unfold ifAfterElse
+  dsimp only
+  have h1 := h.step (good_leave s)
+  cases r with
+  | true => exact ⟨h1, fun l pl => pl.step h.1 (good_leave s)⟩
+  | false =>
+    have g2 : Good s.leave.2 (s.leave.2.pushVia k (.jumpTo lEnd)) := good_pushVia_plain _ _ _ rfl
+    exact ⟨h1.step g2, fun l pl => (pl.step h.1 (good_leave s)).step h1.1 g2⟩
+
+theorem good_nestedReturn (g : Globals) (e : Expr) (s : St) : Good s (nestedReturn g e s).1 := by
+  obtain ⟨s1, h1, h | ⟨r, h⟩⟩ := esteps_nestedReturn_pre g e s
+  · rw [h]; exact good_esteps h1
+  · rw [h]; exact ((good_esteps h1).trans (good_push_plain _ _ rfl)).trans (good_setReturn _)
+
+theorem good_loopWrap (k : Name → Name → Bool → Bool → Bool → St → St × Bool)
+    (hk : ∀ lb le rc bc cc s, Good s (k lb le rc bc cc s).1) (s : St) : Good s (loopWrap k s) := by
+  intro hi
+  unfold loopWrap
+  dsimp only
+  obtain ⟨hp, pe⟩ := loopPrologue_spec s hi
+  generalize loopPrologue s = p at hp pe
+  obtain ⟨lb, le, s1⟩ := p
+  dsimp only at hp pe ⊢
+  have gb := hk lb le false false false s1
+  have hb := hp.step gb
+  have peb := pe.step hp.1 gb
+  generalize k lb le false false false s1 = q at hb peb
+  obtain ⟨s2, r⟩ := q
+  dsimp only at hb peb ⊢
+  unfold loopEpilogue
+  dsimp only
+  cases r with
+  | true => have := hb.step (good_leave s2); exact ⟨this.1, this.2⟩
+  | false =>
+    simp only [Bool.false_eq_true, if_false]
+    have g1 : Good s2 (s2.push (.jumpTo lb)) := good_push_plain _ _ rfl
+    have h1 := hb.step g1
+    have h2 := h1.setPending (peb.step hb.1 g1) (root_push (.setLabel le) _)
+    have := h2.step (good_leave _)
+    exact ⟨this.1, this.2⟩
+
+mutual
+theorem good_ifCondition (g : Globals) : ∀ (i : IfStmt) (le : Option Name) (ll : Option (Name × Name)) (s : St),
+    Good s (ifCondition g i le ll s)
+  | .mk cond body els elif, le, ll, s => by
+    intro hi
+    unfold ifCondition
+    dsimp only
+    obtain ⟨hp, pe, pd, pl⟩ := ifPrologue_spec g cond (els.isSome && elif.isSome) (els.isSome || elif.isSome) le s hi
+    generalize ifPrologue g cond (els.isSome && elif.isSome) (els.isSome || elif.isSome) le s = p at hp pe pd pl
+    obtain ⟨lElse, lEnd, s1⟩ := p
+    dsimp only at hp pe pd pl ⊢
+    have gb := good_ifBodies g body lEnd ll s1
+    have hb := hp.step gb
+    have peb := pe.step hp.1 gb
+    have pdb : le = none → Pending s (ifBodies g body lEnd ll s1).1 lEnd := fun h => (pd h).1.step hp.1 gb
+    generalize ifBodies g body lEnd ll s1 = q at hb peb pdb
+    obtain ⟨s2, r⟩ := q
+    dsimp only at hb peb pdb ⊢
+    obtain ⟨ha, pa⟩ := ifAfterBody_spec (els.isSome || elif.isSome) r lElse lEnd s2 hb peb
+    generalize ifAfterBody (els.isSome || elif.isSome) r lElse lEnd s2 = q3 at ha pa
+    obtain ⟨k, s3⟩ := q3
+    dsimp only at ha pa ⊢
+    -- the epilogue, for any result `se` of the else / else-if part
+    have epi : ∀ se, Res s se → (∀ l, Pending s s3 l → Pending s se l) →
+        LInv (ifEpilogue k le lEnd se) ∧ LExt s (ifEpilogue k le lEnd se) := by
+      intro se he pse
+      unfold ifEpilogue
+      cases le with
+      | some l => simp only [Option.isSome_some, if_true]; exact ⟨he.1, he.2⟩
+      | none =>
+        simp only [Option.isSome_none, Bool.false_eq_true, if_false]
+        obtain ⟨_, hne⟩ := pd rfl
+        have pd2 := pse _ (pa _ (pdb rfl) hne)
+        have := he.setPending pd2 (root_pushVia k (.setLabel lEnd) se)
+        exact ⟨this.1, this.2⟩
+    cases els with
+    | some eb =>
+      dsimp only
+      have ge := good_ifBodies g eb lEnd ll s3.enter
+      have he := (ha.step (good_enter s3)).step ge
+      have hpe : ∀ l, Pending s s3 l → Pending s (ifBodies g eb lEnd ll s3.enter).1 l :=
+        fun l pl => (pl.step ha.1 (good_enter s3)).step (ha.step (good_enter s3)).1 ge
+      generalize ifBodies g eb lEnd ll s3.enter = q4 at he hpe
+      obtain ⟨s4, r4⟩ := q4
+      obtain ⟨h3, p3⟩ := ifAfterElse_spec k r4 lEnd s4 he
+      exact epi _ h3 (fun l pl => p3 l (hpe l pl))
+    | none =>
+      cases elif with
+      | some ei =>
+        dsimp only
+        have gi := good_ifCondition g ei (some lEnd) ll s3
+        exact epi _ (ha.step gi) (fun l pl => pl.step ha.1 gi)
+      | none => exact epi _ ha (fun l pl => pl)
+theorem good_ifBodies (g : Globals) : ∀ (b : IfBodies) (lEnd : Name) (ll : Option (Name × Name)) (s : St),
+    Good s (ifBodies g b lEnd ll s).1
+  | .ifb l, lEnd, ll, s => by unfold ifBodies; exact good_ifBody g l lEnd ll false s
+  | .loopb l, lEnd, some (lb, le), s => by unfold ifBodies; exact good_ifLoopBody g l lEnd lb le false false false s
+  | .loopb _, _, none, s => by unfold ifBodies; unfold St.setPanic; cases s.panic <;> exact good_of_same rfl rfl
+theorem good_ifBody (g : Globals) : ∀ (l : List IfBodyStmt) (lEnd : Name) (ll : Option (Name × Name)) (rc : Bool) (s : St),
+    Good s (ifBody g l lEnd ll rc s).1
+  | [], _, _, _, s => by unfold ifBody; exact Good.refl _
+  | st :: tl, lEnd, ll, rc, s => by
+    unfold ifBody
+    dsimp only
+    have h0 := good_esteps (esteps_forbidden rc false false s)
+    generalize forbidden rc false false s = s0 at h0
+    cases st with
+    | letB b => exact (h0.trans (good_esteps (esteps_letBinding g b s0))).trans (good_ifBody g tl lEnd ll rc _)
+    | bind b => exact (h0.trans (good_esteps (esteps_binding g b s0))).trans (good_ifBody g tl lEnd ll rc _)
+    | call c => exact (h0.trans (good_esteps (esteps_callStmt g c s0))).trans (good_ifBody g tl lEnd ll rc _)
+    | ifS i => exact (h0.trans (good_ifCondition g i (some lEnd) ll s0)).trans (good_ifBody g tl lEnd ll rc _)
+    | loop b => exact (h0.trans (good_loopWrap _ (good_loopBody g b) s0)).trans (good_ifBody g tl lEnd ll rc _)
+    | ret e =>
+      dsimp only
+      have h1 := h0.trans (good_nestedReturn g e s0)
+      generalize nestedReturn g e s0 = q at h1
+      obtain ⟨s1, r⟩ := q
+      exact h1.trans (good_ifBody g tl lEnd ll (rc || r) s1)
+theorem good_ifLoopBody (g : Globals) : ∀ (l : List IfLoopStmt) (lEnd lb le : Name) (rc bc cc : Bool) (s : St),
+    Good s (ifLoopBody g l lEnd lb le rc bc cc s).1
+  | [], _, _, _, _, _, _, s => by unfold ifLoopBody; exact Good.refl _
+  | st :: tl, lEnd, lb, le, rc, bc, cc, s => by
+    unfold ifLoopBody
+    dsimp only
+    have h0 := good_esteps (esteps_forbidden rc bc cc s)
+    generalize forbidden rc bc cc s = s0 at h0
+    cases st with
+    | letB b => exact (h0.trans (good_esteps (esteps_letBinding g b s0))).trans (good_ifLoopBody g tl lEnd lb le rc bc cc _)
+    | bind b => exact (h0.trans (good_esteps (esteps_binding g b s0))).trans (good_ifLoopBody g tl lEnd lb le rc bc cc _)
+    | call c => exact (h0.trans (good_esteps (esteps_callStmt g c s0))).trans (good_ifLoopBody g tl lEnd lb le rc bc cc _)
+    | ifS i => exact (h0.trans (good_ifCondition g i (some lEnd) (some (lb, le)) s0)).trans (good_ifLoopBody g tl lEnd lb le rc bc cc _)
+    | loop b => exact (h0.trans (good_loopWrap _ (good_loopBody g b) s0)).trans (good_ifLoopBody g tl lEnd lb le rc bc cc _)
+    | ret e =>
+      dsimp only
+      have h1 := h0.trans (good_nestedReturn g e s0)
+      generalize nestedReturn g e s0 = q at h1
+      obtain ⟨s1, r⟩ := q
+      exact h1.trans (good_ifLoopBody g tl lEnd lb le (rc || r) bc cc s1)
+    | cont => exact (h0.trans (good_push_plain _ _ rfl)).trans (good_ifLoopBody g tl lEnd lb le rc bc true _)
+    | brk => exact (h0.trans (good_push_plain _ _ rfl)).trans (good_ifLoopBody g tl lEnd lb le rc true cc _)
+theorem good_loopBody (g : Globals) : ∀ (l : List LoopStmt) (lb le : Name) (rc bc cc : Bool) (s : St),
+    Good s (loopBody g l lb le rc bc cc s).1
+  | [], _, _, _, _, _, s => by unfold loopBody; exact Good.refl _
+  | st :: tl, lb, le, rc, bc, cc, s => by
+    unfold loopBody
+    dsimp only
+    have h0 := good_esteps (esteps_forbidden rc bc cc s)
+    generalize forbidden rc bc cc s = s0 at h0
+    cases st with
+    | letB b => exact (h0.trans (good_esteps (esteps_letBinding g b s0))).trans (good_loopBody g tl lb le rc bc cc _)
+    | bind b => exact (h0.trans (good_esteps (esteps_binding g b s0))).trans (good_loopBody g tl lb le rc bc cc _)
+    | call c => exact (h0.trans (good_esteps (esteps_callStmt g c s0))).trans (good_loopBody g tl lb le rc bc cc _)
+    | ifS i => exact (h0.trans (good_ifCondition g i none (some (lb, le)) s0)).trans (good_loopBody g tl lb le rc bc cc _)
+    | loop b => exact (h0.trans (good_loopWrap _ (good_loopBody g b) s0)).trans (good_loopBody g tl lb le rc bc cc _)
+    | ret e =>
+      dsimp only
+      have h1 := h0.trans (good_nestedReturn g e s0)
+      generalize nestedReturn g e s0 = q at h1
+      obtain ⟨s1, r⟩ := q
+      exact h1.trans (good_loopBody g tl lb le (rc || r) bc cc s1)
+    | brk => exact (h0.trans (good_push_plain _ _ rfl)).trans (good_loopBody g tl lb le rc true cc _)
+    | cont => exact (h0.trans (good_push_plain _ _ rfl)).trans (good_loopBody g tl lb le rc bc true _)
+end
+
+theorem good_bodyStmts (g : Globals) (resTy : Ty) : ∀ (l : List BodyStmt) (rc : Bool) (s : St),
+    Good s (bodyStmts g resTy l rc s).1
+  | [], _, s => by unfold bodyStmts; exact Good.refl _
+  | st :: tl, rc, s => by
+    unfold bodyStmts
+    dsimp only
+    have h0 := good_esteps (esteps_forbidden rc false false s)
+    generalize forbidden rc false false s = s0 at h0
+    cases st with
+    | letB b => exact (h0.trans (good_esteps (esteps_letBinding g b s0))).trans (good_bodyStmts g resTy tl rc _)
+    | bind b => exact (h0.trans (good_esteps (esteps_binding g b s0))).trans (good_bodyStmts g resTy tl rc _)
+    | call c => exact (h0.trans (good_esteps (esteps_callStmt g c s0))).trans (good_bodyStmts g resTy tl rc _)
+    | ifS i => exact (h0.trans (good_ifCondition g i none none s0)).trans (good_bodyStmts g resTy tl rc _)
+    | loop b => exact (h0.trans (good_loopWrap _ (good_loopBody g b) s0)).trans (good_bodyStmts g resTy tl rc _)
+    | expr e =>
+      dsimp only
+      have h1 := h0.trans (good_esteps (esteps_fnReturn g resTy e rc s0))
+      generalize fnReturn g resTy e rc s0 = q at h1
+      obtain ⟨s1, r⟩ := q
+      exact h1.trans (good_bodyStmts g resTy tl r s1)
+    | ret e =>
+      dsimp only
+      have h1 := h0.trans (good_esteps (esteps_fnReturn g resTy e rc s0))
+      generalize fnReturn g resTy e rc s0 = q at h1
+      obtain ⟨s1, r⟩ := q
+      exact h1.trans (good_bodyStmts g resTy tl r s1)
+
+theorem lInv_init : LInv St.init := by simp [LInv, St.init, Block.fresh, setLabels]
+
+/-- C10 (uniqueness) for one function: no label is set twice -/
+theorem C10_unique_function (g : Globals) (f : FnDecl) :
+    nodupB (setLabels (functionBody g f).root.context) = true := by
+  have hgood : Good St.init (functionBody g f) := by
+    unfold functionBody
+    dsimp only
+    have h1 := good_esteps (esteps_initParams f.params St.init paramInv_init)
+    generalize initParams f.params St.init = s1 at h1
+    have h2 := h1.trans (good_bodyStmts g f.result.toTy f.body false s1)
+    generalize bodyStmts g f.result.toTy f.body false s1 = q at h2
+    obtain ⟨s2, rc⟩ := q
+    cases rc
+    · exact h2.trans (good_estep (EStep.addErr _ _ _ _ _))
+    · exact h2
+  have := (hgood lInv_init).1.1
+  -- `nodupB` is the executable form of `List.Nodup`
+  have nodupB_of_nodup : ∀ (l : List Name), l.Nodup → nodupB l = true := by
+    intro l
+    induction l with
+    | nil => intro _; rfl
+    | cons a rest ih =>
+      intro h
+      rw [List.nodup_cons] at h
+      unfold nodupB
+      simp [h.1, ih h.2]
+  exact nodupB_of_nodup _ this
+
+/-- **C10 (uniqueness)** — for every program, no function stack sets a label twice -/
+theorem C10_unique (p : Program) : P_C10_unique (run p) = [] := by
+  unfold P_C10_unique run
+  rw [List.map_eq_nil_iff, List.filter_eq_nil_iff]
+  intro x hx
+  obtain ⟨b, i⟩ := x
+  have hb := List.mem_zipIdx hx
+  have : b ∈ List.map (fun s => s.root) (List.map (functionBody (pass2 p (pass1 p GState.init)).globals) p.fns) := by
+    have := hb.2.2
+    simp only at this
+    rw [this]; exact List.getElem_mem _
+  simp only [List.mem_map] at this
+  obtain ⟨s, ⟨f, _, rfl⟩, rfl⟩ := this
+  simp [C10_unique_function]
+
 end SemVerif
